@@ -21,7 +21,7 @@ type c10WriterSpec struct {
 }
 
 func c10WriterRules(r *fw.Run, p *fw.Program) {
-	ru := r.Rule("C10.writer", "hexpairwriter and asciiwriter (siblings): New binds width/startLineOffset/fn to the fields Write uses as modulus / pad bound / cell function, offset starts at 0 and is only ever incremented by 1 (once per pad cell, once per byte); every modulus is offset % width; pad loop runs while offset < startLineOffset; a newline is emitted only after the cell in column width-1 (and only if more bytes follow in the chunk) or, deferred, before column 0 when offset > startLineOffset; pad cells have the width of data cells; cells are fn(p[i]); the cell text is appended at buf[bufOffset:] with bufOffset advanced by its length, bufOffset is reset after every flush and set to 1 after a deferred separator at buf[0], and advanced by 1 after a byte stored at buf[bufOffset]", 38)
+	ru := r.Rule("C10.writer", "hexpairwriter and asciiwriter (siblings): New binds width/startLineOffset/fn to the fields Write uses as modulus / pad bound / cell function, offset starts at 0 and is only ever incremented by 1 (once per pad cell, once per byte); every modulus is offset % width; pad loop runs while offset < startLineOffset; a newline is emitted only after the cell in column width-1 (and only if more bytes follow in the chunk) or, deferred, before column 0 when offset > startLineOffset; pad cells have the width of data cells; cells are fn(p[i]); the cell text is appended at buf[bufOffset:] with bufOffset advanced by its length, bufOffset is reset after every flush and set to 1 after a deferred separator at buf[0], and advanced by 1 after a byte stored at buf[bufOffset]; a replacement (grown) line buffer keeps the old contents, is taken whenever room for the cell (+1) lacks and has that room", 42)
 	for _, sp := range []c10WriterSpec{{"hex", "internal/hexpairwriter", 3}, {"ascii", "internal/asciiwriter", 1}} {
 		c10WriterCheck(ru, p, sp)
 	}
@@ -316,9 +316,18 @@ func c10WriterCheck(ru *fw.Rule, p *fw.Program, sp c10WriterSpec) {
 	} else {
 		// no separator: chunk-final and row-end flush both write buf[:bufOffset]
 		n := 0
+		// the slices handed to the underlying writer inside the byte loop
+		flushed := map[ssa.Value]bool{}
+		fw.EachInstr(wr, func(ins ssa.Instruction) {
+			if c, ok := ins.(*ssa.Call); ok && c.Call.IsInvoke() && c.Call.Method.Name() == "Write" && cell.Block().Dominates(c.Block()) {
+				for _, lf := range c10PhiLeaves(c.Call.Args[0]) {
+					flushed[lf.V] = true
+				}
+			}
+		})
 		fw.EachInstr(wr, func(ins ssa.Instruction) {
 			sl, ok := ins.(*ssa.Slice)
-			if !ok || sl.High == nil || !cell.Block().Dominates(sl.Block()) {
+			if !ok || sl.High == nil || !cell.Block().Dominates(sl.Block()) || !flushed[sl] {
 				return
 			}
 			if f := recvField(sl.High); f >= 0 && f != offF && f != widF && f != soF {
